@@ -2,8 +2,10 @@ package rewriter
 
 import (
 	"go/ast"
+	"go/token"
 	"go/types"
 	"log"
+	"strconv"
 	"strings"
 
 	"github.com/goghcrow/go-ast-matcher"
@@ -11,6 +13,7 @@ import (
 	"github.com/goghcrow/go-loader"
 	"github.com/goghcrow/go-matcher"
 	. "github.com/goghcrow/go-matcher/combinator"
+	"golang.org/x/tools/go/ast/astutil"
 )
 
 type optimizer struct {
@@ -48,7 +51,42 @@ func (o *optimizer) optimizeAllFiles(printer FilePrinter) {
 }
 
 func (o *optimizer) optimizeImports(f *loader.File) {
+	before := importPaths(f.File)
 	imports.Clean(o.m.Loader, f)
+
+	// only the import of co becomes unused by rewriting,
+	// any other import that is unused now was used by dead code dropped by rewriter
+	// (stmts following break / continue / return), keep it for the side effects of its init
+	after := map[string]bool{}
+	for _, path := range importPaths(f.File) {
+		after[path] = true
+	}
+	for _, path := range before {
+		if !after[path] && path != pkgCoPath {
+			astutil.AddNamedImport(f.Pkg.Fset, f.File, "_", path)
+		}
+	}
+}
+
+// the paths of import decls (f.Imports isn't updated by imports.Clean)
+func importPaths(f *ast.File) (xs []string) {
+	for _, decl := range f.Decls {
+		gen, ok := decl.(*ast.GenDecl)
+		if !ok || gen.Tok != token.IMPORT {
+			continue
+		}
+		for _, spec := range gen.Specs {
+			// imports.Clean rebuilds the spec with the name inside the path literal, e.g. `seq "path"`
+			lit := spec.(*ast.ImportSpec).Path.Value
+			if i := strings.Index(lit, "\""); i >= 0 {
+				lit = lit[i:]
+			}
+			if path, err := strconv.Unquote(lit); err == nil {
+				xs = append(xs, path)
+			}
+		}
+	}
+	return
 }
 
 // NOTICE:
